@@ -177,13 +177,28 @@ func findRewrites(
 	slices.SortFunc(rewrites, (*LegacyRewrite).Compare)
 
 	for i, r := range rewrites {
-		if isWildcard(r.Domain) {
-			// Don't use rewrites[:0], because we need to return at least one
-			// item here.
-			rewrites = rewrites[:max(1, i)]
-
-			break
+		if !isWildcard(r.Domain) {
+			continue
 		}
+
+		end := i
+		if i == 0 {
+			// There are no exact entries, so keep all the entries of the most
+			// specific wildcard that are of the same kind, not just the first
+			// one.  Otherwise, an exception for the other question type that
+			// is listed first hides the value or the exception for this one.
+			isCNAME := r.Type == dns.TypeCNAME
+			for end = 1; end < len(rewrites); end++ {
+				next := rewrites[end]
+				if next.Domain != r.Domain || (next.Type == dns.TypeCNAME) != isCNAME {
+					break
+				}
+			}
+		}
+
+		rewrites = rewrites[:end]
+
+		break
 	}
 
 	return rewrites, matched
